@@ -98,20 +98,17 @@ def RangeA.values (t : RType) (base : Option (List Part)) (a : RangeA) : Option 
 
 /-- `min` only as the very first boundary, `max` only as the very last one — the only places where
 `lys_compile_type_range` accepts the keywords (finding F52 for the other, equally valid, placements) -/
-def Bnd.isKw : Bnd → Bool
-  | .num _ => false
-  | _ => true
+def PartA.KwOK (p : PartA) (isFirst isLast : Bool) : Prop :=
+  (p.lo matches .min → isFirst = true) ∧
+  (p.lo matches .max → isLast = true ∧ p.hi = none) ∧
+  (∀ o1 o2 b, p.hi = some (o1, o2, b) → ¬ (b matches .min) ∧ (b matches .max → isLast = true))
 
-def PartA.hiB (p : PartA) : Option Bnd := p.hi.map fun x => x.2.2
+def RestKwOK : List (OptSep × OptSep × PartA) → Prop
+  | [] => True
+  | [(_, _, p)] => p.KwOK false true
+  | (_, _, p) :: q :: r => p.KwOK false false ∧ RestKwOK (q :: r)
 
-/-- boundaries in textual order -/
-def PartA.bnds (p : PartA) : List Bnd := p.lo :: (match p.hiB with | some b => [b] | none => [])
-
-def RangeA.bnds (a : RangeA) : List Bnd := a.first.bnds ++ a.rest.flatMap fun x => x.2.2.bnds
-
-def KwOK (a : RangeA) : Prop :=
-  (∀ b ∈ a.bnds.tail, b matches .num _ ∨ b matches .max) ∧           -- no `min` after the first boundary
-  (∀ b ∈ a.bnds.dropLast, b matches .num _ ∨ b matches .min)          -- no `max` before the last boundary
+def RangeA.KwOK (a : RangeA) : Prop := a.first.KwOK true a.rest.isEmpty ∧ RestKwOK a.rest
 
 /-- the limits of the built-in type are what `strtoll` / `strtoull` can represent -/
 def RType.WF (t : RType) : Prop :=
